@@ -359,9 +359,9 @@ def plist(l):
 # ====================================================================== run
 def run(ctx):
     rng = ctx.rng
-    nA = ctx.scale(160, 2500)
-    nB = ctx.scale(420, 7000)
-    ins = inputs(rng, ctx.scale(12, 40))
+    nA = ctx.scale(160, 480)
+    nB = ctx.scale(420, 1260)
+    ins = inputs(rng, ctx.scale(12, 20))
     ins_text = plist(plist(l) for l in ins)
     failures, tie_breaks = [], []
     dist = {"partA_grammars": nA, "partB_grammars": nB, "inputs_per_grammar": len(ins)}
